@@ -583,6 +583,8 @@ func tailField(tn string) string {
 	return ""
 }
 
+var usedObjs = map[string]codecPDU{}
+
 func runWire(c Case, tr *Tracer) {
 	tn := caseStr(c, "type")
 	switch caseStr(c, "k") {
@@ -641,6 +643,30 @@ func runWire(c Case, tr *Tracer) {
 			// a panic or hang on arbitrary input is C03's business; not a relay verdict
 			tr.emit(e)
 			return
+		}
+		// the same image into an object that has been decoded into before (a receive loop that keeps one PDU per type)
+		e["u"], e["b1u"] = "skip", []int{}
+		if err == nil {
+			u := usedObjs[tn]
+			if u == nil {
+				u = ctors[tn]()
+				usedObjs[tn] = u
+			}
+			var uerr error
+			var bu []byte
+			if guard(func() { uerr = u.IDecode(append([]byte{}, b0...)) }) {
+				e["u"] = "panic"
+				delete(usedObjs, tn)
+			} else if uerr != nil {
+				e["u"] = "decerr"
+			} else if guard(func() { bu, uerr = u.IEncode() }) {
+				e["u"] = "panic"
+				delete(usedObjs, tn)
+			} else if uerr != nil {
+				e["u"] = "encerr"
+			} else {
+				e["u"], e["b1u"] = "ok", B(bu)
+			}
 		}
 		if err == nil {
 			e["decerr"] = false
